@@ -184,7 +184,8 @@ func (p *parser) parseBool(n *yaml.Node) *Bool {
 	}
 
 	return &Bool{
-		Value: n.Value == "true",
+		// YAML allows true, True and TRUE for a boolean value
+		Value: n.Value == "true" || n.Value == "True" || n.Value == "TRUE",
 		Pos:   posAt(n),
 	}
 }
